@@ -51,3 +51,80 @@ CHECKS["C17"] = dict(
 )
 
 NOT_APPLICABLE = {}
+
+CHECKS["C20"] = dict(
+    text=("Lean theorems (Props/C20.lean) over the model of Grid.__eq__/__ne__ for ALL pairs of grids — any format string, unbounded "
+          "coordinate arrays given as IEEE-754 bit patterns (NaN, ±0, inf), any connectivity shape: eq_sound (a == b ⇒ same format and "
+          "identical node_lon, node_lat, face_node_connectivity), hence single_change_detected (any one changed longitude / latitude / "
+          "connectivity entry at any position by any different value, or another n_node / n_face / width / format ⇒ unequal in both "
+          "orders and != True) and any_difference_detected; eq_refl (also with NaN), eq_symm, eq_trans, ne_iff_not_eq, copy_eq, "
+          "non_grid_false; gridEq_iff characterises == exactly. The converse (same ⇒ equal) is proved only for grids that store "
+          "node_lon/node_lat the same way (eq_complete_partial; counterexample coords_structure_violates_spec = known finding). "
+          "asis_violates_spec refutes the snapshot's `or` (repaired by fix c9c5774d). Tie (differential test): ~4k quick / ~39k thorough "
+          "generated pairs through the public constructors, the UGRID reader and sample files of 6 formats, all ordered pairs of a small "
+          "family (every combination of differing fields), g==g, copies, 16 kinds of non-Grid operands; the Lean driver evaluates the "
+          "decidable Spec (specB_iff) on observed arrays and outputs."),
+    note=_TB + "Modelled, not verified: DataArray.equals (dims, NaN-aware elements, coordinates), IEEE == on bit patterns (compared "
+         "per run with Lean Float, NumPy and xarray on special/random doubles), Python's reflected-comparison fallback, canonical "
+         "dimension names. 'Identical' is array identity (shape, NaN-in-place, +0 = -0, dtype ignored). One KNOWN-FINDING "
+         "(coords-structure) remains.",
+    technique="Lean 4 theorems over a hand model (bit-level IEEE equality) + differential correspondence with Lean-evaluated spec",
+)
+
+CHECKS["C16"] = dict(
+    text=("Lean theorems UxVerif.C16.*: over ℝ the law-of-cosines expression the code evaluates is the dot product of the two unit "
+          "vectors and its arccos equals the independent atan2 oracle (lawcos_eq_dot, gcDist_eq_oracle); with typed node/face indices "
+          "edge_node_distances reads node arrays at the edge's nodes and edge_face_distances reads face-centre arrays at "
+          "the edge's faces, 0 on boundary edges (edgeFaceDist_uses_face_centres, _boundary_zero); for EVERY edge table, data, distance "
+          "table and number of leading slices over any ordered field: difference = |a-b| over the edge's own faces/nodes, zero on "
+          "boundary edges and for constant fields, gradient = difference / distance, zero on boundary/constant, a normalised slice has "
+          "unit Euclidean norm, every operator is a map over leading slices, result shape (diff_*, grad_*, normalized_unit_norm, "
+          "leading_independent, result_dims); source-supplied MPAS tables follow the mesh's own node/face roles (mpas_supplied_roles). "
+          "The three defects of the snapshot (repaired by fix commits 859be677, d402cfa7, 1559d829) stay as proved counterexamples "
+          "(asis_edge_face_dist_wrong, asis_normalize_global_norm, asis_mpas_dual_swapped). Tie: differential run on generated grids "
+          "(n_face>n_node and <n_node, boundary edges, supplied face centres, synthetic MPAS primal/dual, MPAS sample) where the Lean "
+          "driver evaluates the specs on the implementation's output: differences/gradients bit-exactly, distances against the atan2 "
+          "oracle under a conditioning-aware tolerance, unit norm 1e-12."),
+    note=_TB + "Modelled, not verified: IEEE rounding/libm (float clauses are tolerance tests), NumPy fancy indexing and xarray dims, "
+         "numba kernels; face centres are the grid's own face_lon/face_lat (C04). Zero-gradient slices (0/0) are not judged for unit "
+         "norm.",
+    technique="Lean 4 theorems (ℝ geometry + ordered-field operator laws, typed indices) + differential correspondence with Lean-evaluated spec and geodesic oracle",
+)
+
+CHECKS["C06"] = dict(
+    text=("Lean theorems UxVerif.C06.integrate_add / integrate_smul (linearity), integrate_one (∫1 = Σ areas), integrate_shape "
+          "(exactly the last, face, dimension is removed at any rank; name and grid kept), integrate_index (for EVERY multi-index of "
+          "the leading dimensions the value is Σ_f area[f]·data[idx,f]), integrate_perm (invariance under any relabelling of the "
+          "faces) and dispatch_rejects (an array whose element dimension is n_node/n_edge is rejected on every grid, also when "
+          "n_node = n_face or n_edge = n_node) hold for the model of UxDataArray.integrate over every commutative semiring, every "
+          "grid, area list, rank and data; integrate_meets_spec proves that the model satisfies the decidable Integrate.Spec. The "
+          "model is tied to the code by a differential run: for every generated call (15 rule/order pairs, 5 dtypes, 0..3 leading "
+          "dims, histories of calls on one grid) the Lean driver converts the input, the areas of an independent "
+          "compute_face_areas(rule, order) call and the observed output EXACTLY to rationals and evaluates Spec (dims, shape, name, "
+          "grid identity, each value within n_face·2^-52·Σ|terms| of the exact sum, rejection). The snapshot's size-based dispatch has "
+          "the proved counterexample asis_integrates_node_data (tetrahedron) and was repaired by fix 34c6c352; the deprecated "
+          "UxDataset.integrate is a known finding (no dispatch, 1-D only)."),
+    note=_TB + "Modelled, not verified: IEEE rounding of np.einsum (bounded by the property's tolerance), xarray's constructor; face "
+         "areas are inputs (C05). Values are differential tests, the algebraic laws and the decision table are theorems. The element "
+         "dimension is the last one; arrays with a non-grid last dimension are not judged.",
+    technique="Lean 4 theorems over a semiring-generic model + differential correspondence with Lean-evaluated spec at exact rationals",
+)
+
+CHECKS["C18"] = dict(
+    text=("Lean theorems over the model of construct_faces/_order_nodes, for EVERY node-face table and EVERY key type with a strict "
+          "total order: construct_eq_kept/dual_face_count (one dual face per node of valence>=3, in node order: the `correction` "
+          "bookkeeping), order_is_sort/ring_of_monotone_keys (the selection loop returns the first entry, the others sorted by key, "
+          "then padding, for lists of any length), dual_rows_are_node_faces/model_meets_discrete_spec (rows are exactly the node's "
+          "faces, padding at the end), side_sign_ccw/side_tproj/tri_tproj/tproj_orth (side test = sign of -c.(t0 x d), unchanged by "
+          "the tangent projection), kept_all_of_closed/dual_row_of_node/dual_data_identity/dual_dims_swap (closed grids: dual face k "
+          "is node k, data untouched, dims swapped). asis_chord_angle_misorders/asis_order_wrong_ring keep the snapshot's defect "
+          "(chord angle instead of tangent-plane angle, fixed by c1960934) as an exact regression witness over the reals. "
+          "TESTED ONLY (Lean driver evaluates on the implementation's output, differential run): ring clause (consecutive corners "
+          "share an edge at the node, C03 incidence model), counter-clockwise clause (polynomial sign tests, no arccos), both "
+          "judged where the face centres are angularly ordered like the face ring; exact table = Float model; dual node = face "
+          "centre; UxDataArray.get_dual dims/values/grid; interpreted vs JIT."),
+    note=_TB + "Modelled, not verified: that face centres around a node are angularly ordered like the face ring (mesh geometry), IEEE "
+         "rounding / libm arccos, numba compilation, from_topology/xarray storage, face centres themselves (C04). UxDataset.get_dual "
+         "cannot run under the installed xarray.",
+    technique="Lean 4 theorems (any table, any ordered key type) + differential correspondence with Lean-evaluated discrete and sign-test spec",
+)
